@@ -89,6 +89,11 @@ bool Instance::parse_input_transaction(const char* txdata, int select_index) {
                 return false;
             }
         }
+        // the output being spent must exist: its amount and locking script are read next
+        if (txin_vout_index < 0 || (size_t)txin_vout_index >= txin->vout.size()) {
+            fprintf(stderr, "error: input %" PRId64 " of the transaction spends output %" PRId64 " of the input transaction, which has only %zu output(s)\n", txin_index, txin_vout_index, txin->vout.size());
+            return false;
+        }
     }
     return true;
 }
